@@ -16,7 +16,7 @@ PROPS_FILE = "Props/C08.v"
 # validate_input / __setitem__ / the reader and the writer that C08 is about are regenerated and tied in C02's tie file
 TIE_FILE = "Props/C02Tie.v"
 ANCHORS = [("lib/debian/deb822.py",
-            ["validate_input", "__setitem__", "_key_part", "_single", "_multi", "_multidata",
+            ["Deb822", "Deb822Dict", "_multivalued", "validate_input", "__setitem__", "_key_part", "_single", "_multi", "_multidata",
              "_internal_parser", "_dump_format", "_dump_str", "dump", "get_as_string",
              "_gpgre", "_initial_blank_line", "_blank_line_whitespace", "_blank_line_no_whitespace",
              "split_gpg_and_payload", "_skip_useless_lines", "iter_paragraphs"]),
@@ -179,8 +179,34 @@ def generate(rng, n, tier):
         if rng.random() < 0.10:
             # the paragraph object comes from an input without any content line instead of Deb822()
             c["start"] = rng.randrange(len(START_FORMS))
+        r = rng.random()
+        if r < 0.12:
+            # "a Deb822 paragraph" includes the subclasses; their structured (multivalued) fields are C12's, every
+            # other name — also ones that merely LOOK like a structured field — is an ordinary field here
+            c["cls"] = rng.randrange(1, len(CLASSES))
+            mv = MV_NAMES
+            lookalikes = ["Checksums-Sha384", "Checksums-Md5x", "Files-Extra", "Checksum", "X-Files", "SHA256x", "MD5Summary"]
+            c["ops"] = [[k if k.lower() not in mv else "X-" + k, v] for k, v in c["ops"]]
+            if rng.random() < 0.6:
+                c["ops"][c["t"]][0] = rng.choice(lookalikes)
+                c["ops"] = c["ops"][:c["t"] + 1] if any(o[0].lower() == c["ops"][c["t"]][0].lower() for o in c["ops"][:c["t"]]) else c["ops"]
+        elif r < 0.30:
+            # equivalent ways of assigning: setdefault on an absent name, update with a one-entry mapping / pair list
+            seen, forms = set(), []
+            for k, _ in c["ops"]:
+                absent = k.lower() not in seen
+                forms.append(rng.choice(["set", "setdefault", "update", "update_pairs"] if absent else ["set", "update", "update_pairs"]))
+                seen.add(k.lower())
+            c["forms"] = forms
+        if rng.random() < 0.15:
+            c["dumpform"] = rng.choice([1, 2])     # dump(BytesIO()) / dump(StringIO(), text_mode=True)
         yield c
 
+
+CLASSES = ["Deb822", "Dsc", "Changes", "Packages", "Sources", "BuildInfo"]
+MV_NAMES = {"files", "checksums-sha1", "checksums-sha256", "checksums-sha512", "checksums-md5", "md5sum", "sha1", "sha256",
+            "sha512", "sha1-history", "sha256-history", "sha1-patches", "sha256-patches", "sha1-download",
+            "sha256-download", "package-list", "installed-build-depends", "environment"}
 
 START_FORMS = [lambda: "", lambda: [], lambda: "\n", lambda: "#c\n", lambda: b"", lambda: io.StringIO(""),
                lambda: ["#only a comment"], lambda: " \n\t\n", lambda: io.BytesIO(b"\n\n")]
@@ -241,17 +267,34 @@ def run_impl(case):
     from debian import deb822
     if case.get("pre_mv"):
         _earlier_multivalued(case["ops"])
-    p = deb822.Deb822() if case.get("start") is None else deb822.Deb822(START_FORMS[case["start"]]())
+    klass = getattr(deb822, CLASSES[case.get("cls", 0)])
+    p = klass() if case.get("start") is None else klass(START_FORMS[case["start"]]())
     steps = []
-    for k, v in case["ops"]:
+    forms = case.get("forms") or ["set"] * len(case["ops"])
+    for (k, v), form in zip(case["ops"], forms):
         try:
-            p[k] = v
+            if form == "setdefault":
+                p.setdefault(k, v)
+            elif form == "update":
+                p.update({k: v})
+            elif form == "update_pairs":
+                p.update([(k, v)])
+            else:
+                p[k] = v
             e = None
         except Exception as exc:
             e = err_kind(exc)
         steps.append([e, _state(p)])
     try:
         text = p.dump()
+        df = case.get("dumpform", 0)
+        if df:
+            # the file forms of dump() write the same text
+            fd = io.BytesIO() if df == 1 else io.StringIO()
+            p.dump(fd) if df == 1 else p.dump(fd, text_mode=True)
+            written = fd.getvalue().decode("utf-8") if df == 1 else fd.getvalue()
+            if written != text:
+                text = written if isinstance(written, str) else "\x00<dump(fd) wrote non-text>"
     except Exception as exc:       # dump() of a paragraph built by accepted assignments must not raise
         text = "\x00<dump raised %s>" % err_kind(exc)
     if not isinstance(text, str):
